@@ -24,7 +24,9 @@ RULE = (
     'in the beam\'s unit (units m/mm/km/cm), go through the correspondence, the accuracy oracle and a rescaling oracle '
     '(×1e±6, 1e±12). Data arrays carrying any subset of precomputed incident_beam/scattered_beam/L1/L2/two_theta coordinates '
     'are passed to every accessor of beamline_components twice (identical results, Euclidean values, bit-identical input). '
-    'Every entry point taking a `scatter` flag (graph.beamline.beamline / Ltotal, scn.Ltotal, keyword and positional; scn.convert) is '
+    'Beams whose norm is 1 ± {0, 1e-16 … 1e-4} in their unit (incident, scattered, both; 0-d and arrays in which every element '
+    'qualifies) are paired with nearly parallel / antiparallel / perpendicular partners in the correspondence, the accuracy oracle and '
+    'a power-of-two rescaling oracle. Every entry point taking a `scatter` flag (graph.beamline.beamline / Ltotal, scn.Ltotal, keyword and positional; scn.convert) is '
     'called with the flag as bool, numpy.bool_, int, numpy.int64, sc.scalar(..).value, sc.array(..).values[i], np.any(..), '
     'sc.any(..).value of both truth values (and origin/target as str subclass / numpy.str_) and compared with the graph model and the '
     'Euclidean definition for the truth value; the stand-alone graphs L1()/L2()/two_theta()/Ltotal() run on data that already '
@@ -106,8 +108,56 @@ def near_axis_vec(rng, axis=None, sign=None, lo=1e-6, hi=1e6):
     return v
 
 
+NORM_EPS = [0.0, 1e-16, 2.2e-16, 1e-15, 1e-14, 1e-13, 1e-12, 1e-11, 1e-10, 1e-9, 1e-8, 1e-7, 1e-6, 5e-6, 9e-6, 1.1e-5, 1e-4]
+
+
+def unit_norm_vec(rng):
+    """a beam whose norm is 1 ± {0, 1e-16 … 1e-4} in its unit (a 'direction' that is not exactly normalised)"""
+    r = rng.random()
+    if r < 0.35:
+        # (a, 0, 1)-like: norm sqrt(1 + a²)
+        a = rng.choice([1e-8, 1e-7, 1e-6, 1e-5, 1e-4, 1e-3, 3e-3, 1e-2]) * rng.choice([1.0, -1.0])
+        k, j = rng.sample(range(3), 2)
+        v = [0.0, 0.0, 0.0]
+        v[k] = rng.choice([1.0, -1.0])
+        v[j] = a
+        return v
+    d = _dir(rng)
+    e = rng.choice(NORM_EPS) * rng.choice([1.0, -1.0])
+    return [c * (1.0 + e) for c in d]
+
+
+def near_degenerate_partner(rng, b1, unit_norm=False):
+    """a beam nearly parallel / antiparallel / perpendicular to b1 (offsets 0, 1e-16 … 1e-3), optionally of norm ≈ 1 itself"""
+    n1 = math.sqrt(sum(c * c for c in b1))
+    off = rng.choice(OFFSETS) * rng.choice([1.0, rng.uniform(0.5, 2.0)])
+    p = _perp(rng, b1)
+    which = rng.choice(['par', 'anti', 'perp', 'par', 'anti'])
+    if which == 'perp':
+        q = _perp(rng, b1)
+        v = [n1 * q[i] + rng.choice([-1, 1]) * off * b1[i] for i in range(3)]
+    else:
+        sg = 1.0 if which == 'par' else -1.0
+        v = [sg * b1[i] + off * n1 * p[i] for i in range(3)]
+    nv = math.sqrt(sum(c * c for c in v))
+    c = (1.0 + rng.choice(NORM_EPS) * rng.choice([1.0, -1.0])) / nv if unit_norm else _lu(rng, 1e-3, 1e3)
+    return [c * x for x in v]
+
+
+def gen_unit_norm_pair(rng, mode):
+    """mode: 'b1' (incident ≈ unit), 'b2' (scattered ≈ unit), 'both'"""
+    u = unit_norm_vec(rng)
+    partner = near_degenerate_partner(rng, u, unit_norm=(mode == 'both')) if rng.random() < 0.8 else _vec(rng)
+    if mode == 'b2':
+        return partner, u
+    return u, partner
+
+
 def gen_beams(rng):
     """(kind, b1, b2) with float components"""
+    if rng.random() < 0.06:
+        b1, b2 = gen_unit_norm_pair(rng, rng.choice(['b1', 'b2', 'both']))
+        return 'unit-norm', b1, b2
     if rng.random() < 0.1:
         b1 = near_axis_vec(rng, axis=2 if rng.random() < 0.6 else None, sign=1.0 if rng.random() < 0.7 else None)
         b2 = near_axis_vec(rng) if rng.random() < 0.3 else _vec(rng)
@@ -435,6 +485,7 @@ def _correspond(ctx):
     _correspond_scalar(ctx)
     _correspond_beams(ctx)
     _correspond_beams_0d(ctx)
+    _correspond_unit_norm(ctx)
     _correspond_scatter_flag(ctx)
 
 
@@ -497,17 +548,21 @@ def gen_0d_group(rng):
     """(b1, [b2…]): one incident beam (half of them near an axis with tiny absolute transverse components) and a handful of
     scattered beams (random, near-degenerate w.r.t. b1, near-axis)"""
     r = rng.random()
-    if r < 0.6:
+    if r < 0.5:
         b1 = near_axis_vec(rng, axis=2 if rng.random() < 0.6 else None, sign=1.0 if rng.random() < 0.7 else None,
                            hi=1e6 if rng.random() < 0.3 else 1e2)
+    elif r < 0.75:
+        b1 = unit_norm_vec(rng)
     else:
         b1 = _vec(rng)
     n1 = math.sqrt(sum(c * c for c in b1))
     b2s = []
     for _ in range(rng.randrange(1, 7)):
         q = rng.random()
-        if q < 0.4:
+        if q < 0.3:
             b2s.append(_vec(rng))
+        elif q < 0.4:
+            b2s.append(near_degenerate_partner(rng, b1, unit_norm=True) if n1 > 0 else _vec(rng))
         elif q < 0.6:
             b2s.append(near_axis_vec(rng))
         else:
@@ -662,7 +717,7 @@ def oracle(ctx, deep):
     mult = 4 if deep else 1
     with hp.precision():
         # every stage runs even if the code under test raised in an earlier one
-        for stage in (lambda c, m: _oracle(c, deep), _oracle_general_rotation, _oracle_0d_beams, _oracle_pipeline,
+        for stage in (lambda c, m: _oracle(c, deep), _oracle_unit_norm, _oracle_general_rotation, _oracle_0d_beams, _oracle_pipeline,
                       _oracle_accessors_repeatable, _oracle_configuration):
             try:
                 stage(ctx, mult)
@@ -795,6 +850,61 @@ def _oracle_general_rotation(ctx, mult):
                           f'two_theta changes from {float(tt[i])!r} to {float(tt[i + 1])!r} under a rotation and rescaling',
                           {'b1': [hp.bits(x) for x in b1s[i]], 'b2': [hp.bits(x) for x in b2s[i]],
                            'rb1': [hp.bits(x) for x in b1s[i + 1]], 'rb2': [hp.bits(x) for x in b2s[i + 1]]})
+
+
+def gen_unit_norm_batch(rng):
+    mode = rng.choice(['b1', 'b2', 'both'])
+    n = rng.randrange(1, 7)
+    pairs = [gen_unit_norm_pair(rng, mode) for _ in range(n)]
+    return mode, [p_[0] for p_ in pairs], [p_[1] for p_ in pairs]
+
+
+def _correspond_unit_norm(ctx):
+    """per-pixel arrays in which EVERY incident (or scattered, or both) beam has norm 1 ± {0, 1e-16 … 1e-4}: a reduction over the
+    whole array (sc.all / sc.any) cannot be diluted by other pixels"""
+    rng = ctx.rng
+    batches = [gen_unit_norm_batch(rng) for _ in range(ctx.n(300, 15000))]
+    outs = iter(ctx.driver(['c03.tt ' + ' '.join(hp.bits(x) for x in (*b1, *b2)) for _, b1s, b2s in batches for b1, b2 in zip(b1s, b2s)]))
+    for mode, b1s, b2s in batches:
+        u1, u2 = rng.choice(BIG_UNITS), rng.choice(BIG_UNITS)
+        tt = impl_two_theta(b1s, b2s, u1, u2)
+        for b1, b2, t in zip(b1s, b2s, tt):
+            o = next(outs)
+            case = {'kind': 'unit-norm:' + mode, 'b1': b1, 'b2': b2, 'units': [u1, u2], 'via': 'two_theta-unit-norm-array'}
+            ctx.case(('un', mode) + tuple(hp.bits(x) for x in (*b1, *b2)), True)
+            ctx.count('two_theta:unit-norm:' + mode)
+            if not _close_ulps(float(t), hp.unbits(o), 2):
+                ctx.disagree(case, _b(t), o, 'two_theta (all beams of norm ≈ 1) differs by more than 2 ulp and 2e-15 rad')
+
+
+def _oracle_unit_norm(ctx, mult):
+    """accuracy and scale invariance when all incident / scattered / both beams of an array have norm 1 ± {0, 1e-16 … 1e-4} in
+    their unit, combined with nearly parallel / antiparallel / perpendicular partners; rescaling by an exact power of two leaves
+    the true angle unchanged"""
+    rng = ctx.rng
+    for _ in range(ctx.n(250, 8000) * mult):
+        mode, b1s, b2s = gen_unit_norm_batch(rng)
+        u1, u2 = rng.choice(BIG_UNITS), rng.choice(BIG_UNITS)
+        tt = impl_two_theta(b1s, b2s, u1, u2)
+        k1, k2 = 2.0 ** rng.choice([-20, -3, 1, 7, 20]), 2.0 ** rng.choice([-20, -3, 1, 7, 20])
+        tts = impl_two_theta([[c * k1 for c in b] for b in b1s], [[c * k2 for c in b] for b in b2s], u1, u2)
+        for i, (b1, b2) in enumerate(zip(b1s, b2s)):
+            truth = _true_angle(b1, b2)
+            w = {'b1': [hp.bits(x) for x in b1], 'b2': [hp.bits(x) for x in b2], 'b1_values': b1, 'b2_values': b2, 'units': [u1, u2],
+                 'batch': {'b1': [[hp.bits(x) for x in b] for b in b1s], 'b2': [[hp.bits(x) for x in b] for b in b2s], 'index': i,
+                           'scales': [k1, k2]}, 'kind': 'unit-norm:' + mode}
+            ctx.case(('unit-norm', mode) + tuple(w['b1'] + w['b2']), True)
+            ctx.count('oracle:unit-norm:' + mode)
+            t, ts = float(tt[i]), float(tts[i])
+            if abs(hp.D(t) - truth) > hp.D(ACC):
+                ctx.violation('C03:two-theta-accuracy', f'two_theta = {t!r} for beams of norm {_norm(b1)!r} and {_norm(b2)!r} (all {mode} beams of the '
+                              f'array have norm ≈ 1 {u1}/{u2}), but the Euclidean angle of the exact inputs is {hp.fmt(truth)} '
+                              f'(error {float(abs(hp.D(t) - truth)):.3g} rad > {ACC} rad)', w)
+                break
+            if abs(ts - t) > 2 * ACC:
+                ctx.violation('C03:two-theta-scale', f'two_theta changes from {t!r} to {ts!r} when the beams (norms {_norm(b1)!r}, {_norm(b2)!r}) are '
+                              f'rescaled by {k1} and {k2}', w)
+                break
 
 
 SCALES_0D = [1e6, 1e-6, 1e12, 1e-12]
@@ -1419,6 +1529,22 @@ def _replay(ctx, payload):
                 pass
         with hp.precision():
             return check_accessors(Sink(), w['cfg'], count=False) > 0
+    if 'batch' in w:
+        with hp.precision():
+            bt = w['batch']
+            b1s = [[hp.unbits(h) for h in b] for b in bt['b1']]
+            b2s = [[hp.unbits(h) for h in b] for b in bt['b2']]
+            u1, u2 = w.get('units', ['m', 'm'])
+            tt = impl_two_theta(b1s, b2s, u1, u2)
+            k1, k2 = bt['scales']
+            tts = impl_two_theta([[c * k1 for c in b] for b in b1s], [[c * k2 for c in b] for b in b2s], u1, u2)
+            bad = False
+            for i in range(len(b1s)):
+                truth = _true_angle(b1s[i], b2s[i])
+                if abs(hp.D(float(tt[i])) - truth) > hp.D(ACC) or abs(float(tts[i]) - float(tt[i])) > 2 * ACC:
+                    print(f'pixel {i}: two_theta = {float(tt[i])!r}, rescaled {float(tts[i])!r}; Euclidean angle {hp.fmt(truth)}')
+                    bad = True
+            return bad
     if w.get('kind') == 'raises':
         b1 = [hp.unbits(h) for h in w['b1']]
         b2 = [hp.unbits(h) for h in w['b2']]
